@@ -50,6 +50,23 @@ def _max_with(val, field):
     return None
 
 
+def sent_store_is_monotone(facts, b, w):
+    """is this store to sent_offset provably not below the old value (guarded by sent_offset < value, a max, or sent_offset + x)?"""
+    sym = Sym(b)
+    val = _store_value(b, sym, w)
+    fs = facts_at(b, sym, facts, w["bb"])
+    if has_cmp(fs, "Lt", lambda a: _is_f(a, "sent_offset"), lambda x: x == val) or _max_with(val, "sent_offset") is not None:
+        return True
+    v_ = val
+    while v_[0] == "field" and v_[2] == "0" and v_[1][0] == "bin" and v_[1][1] == "AddWithOverflow":
+        v_ = ("bin", "Add", v_[1][2], v_[1][3])
+    if is_call(v_, "saturating_add") and len(v_[2]) == 2:
+        return _is_f(v_[2][0], "sent_offset") or _is_f(v_[2][1], "sent_offset")
+    if v_[0] == "bin" and v_[1] == "Add":
+        return _is_f(v_[2], "sent_offset") or _is_f(v_[3], "sent_offset")
+    return False
+
+
 def run(facts, R):
     for f in ("acked_offset", "sent_offset", "cancelled", "window_bytes", "current_file_index", "pending_resume"):
         facts.require_field(INNER, f)
@@ -99,6 +116,12 @@ def run(facts, R):
         R.check(bounded, "acked-le-sent", fn, "acked_offset<=sent_offset",
                 "store acked_offset = %s is neither min(_, sent_offset) nor guarded by value <= sent_offset; guards: %s"
                 % (vtxt, texts(fs)), w["span"], why)
+        if bounded and is_call(val, "std::cmp::Ord::min", "core::cmp::Ord::min", "min") and len(val[2]) == 2 and any(_is_f(a, "acked_offset") for a in val[2]) \
+                and any(_is_f(a, "sent_offset") for a in val[2]):
+            # acked_offset = min(acked_offset, sent_offset): a clamp that restores acked <= sent after sent_offset was rewound; it is
+            # no acknowledgement (it releases nothing: in-flight = sent - acked cannot grow by it), so the ack guards do not apply
+            R.ok("ack-guards", fn, "acked_offset clamped to sent_offset", w["span"], vtxt[:120])
+            continue
         # (b) monotone: guarded by value > acked_offset
         mono = has_cmp(fs, "Lt", lambda a: _is_f(a, "acked_offset"), lambda x: x == val) or raised is not None
         R.check(mono, "ack-guards", fn, "acked_offset-monotone",
@@ -135,6 +158,27 @@ def run(facts, R):
                     "reset paired with acked_offset reset", path=w_path)
             continue
         mono = has_cmp(fs, "Lt", lambda a: _is_f(a, "sent_offset"), lambda x: x == val) or _max_with(val, "sent_offset") is not None
+        if not mono:
+            # sent_offset + x in unsigned arithmetic (saturating / checked / plain) never lies below sent_offset
+            v_ = val
+            while v_[0] == "field" and v_[2] == "0" and v_[1][0] == "bin" and v_[1][1] == "AddWithOverflow":
+                v_ = ("bin", "Add", v_[1][2], v_[1][3])
+            if is_call(v_, "saturating_add", "wrapping_add") and len(v_[2]) == 2 and is_call(v_, "saturating_add"):
+                mono = _is_f(v_[2][0], "sent_offset") or _is_f(v_[2][1], "sent_offset")
+            elif v_[0] == "bin" and v_[1] == "Add":
+                mono = _is_f(v_[2], "sent_offset") or _is_f(v_[3], "sent_offset")
+        if not mono:
+            # a rewind (handing back an unsent reservation) is sound only together with acked_offset being clamped to the new value:
+            # on every path from the store to the return, acked_offset = min(acked_offset, <the new sent_offset>) follows
+            from analysis.flow import must_cross, return_points
+            clamps = []
+            for x in stores:
+                if x["body"] is b and x["kind"] == "store":
+                    xv = Sym(b).rvalue(x["rv"])
+                    if is_call(xv, "std::cmp::Ord::min", "core::cmp::Ord::min", "min") and len(xv[2]) == 2 and \
+                            any(_is_f(a_, "acked_offset") for a_ in xv[2]) and any(a_ == val or _is_f(a_, "sent_offset") for a_ in xv[2]):
+                        clamps.append((x["bb"], x["idx"]))
+            mono = bool(clamps) and must_cross(b, [(w["bb"], w["idx"])], return_points(b), clamps) is None
         R.check(mono, "sent-monotone", fn, "sent_offset-monotone",
                 "store sent_offset = %s is not guarded by value > sent_offset (could drop below acked_offset); guards: %s"
                 % (render(val), texts(fs)), w["span"], "guarded by sent_offset < value")
@@ -209,39 +253,46 @@ def run(facts, R):
                 "request_resume can return Ok after cancellation; guards: %s" % texts(fs), s.get("span"))
 
     # ---------------- wait loops: cancel first, credit predicate ---------------------------------
-    wc = facts.body(TC + "::wait_for_credit")
-    sym = Sym(wc)
-    oks = blocks_assigning_variant(wc, "std::result::Result", "Ok")
-    R.floor("credit-predicate", len(oks), 1, "Ok exits of wait_for_credit")
-    for i, j, s in oks:
-        from analysis.guards import refine
-        for fs in [alt for fs0 in disjunct_facts(wc, sym, facts, i) for alt in refine(wc, sym, facts, fs0)]:
-            not_cancelled = option_fact(fs, lambda e: _is_f(e, "cancelled"), "None")
-            R.check(not_cancelled, "cancel-sticky", wc.path, "Ok-after-cancel-test",
-                    "wait_for_credit can grant credit without testing `cancelled` first; guards: %s" % texts(fs), s.get("span"),
-                    "credit granted only with cancelled == None")
+    facts.body(TC + "::wait_for_credit")
+    # every function that can hand out credit (returns Result<_, CreditError>) is a grant site, whenever it was added: a sibling
+    # of wait_for_credit (`try_`, `reserve_`, a batched variant) has to apply the same predicate
+    grant_fns = sorted(p_ for p_, b__ in facts.bodies.items() if p_.startswith("stream::") and "{closure" not in p_ and "CreditError" in b__.local_ty(0)
+                       and b__.local_ty(0).startswith("std::result::Result<"))
+    R.floor("credit-predicate", len(grant_fns), 1, "functions returning Result<_, CreditError>")
+    for gpath in grant_fns:
+      wc = facts.body(gpath)
+      sym = Sym(wc)
+      oks = blocks_assigning_variant(wc, "std::result::Result", "Ok")
+      R.floor("credit-predicate", len(oks), 1, "Ok exits of " + gpath.rsplit("::", 1)[-1])
+      for i, j, s in oks:
+          from analysis.guards import refine
+          for fs in [alt for fs0 in disjunct_facts(wc, sym, facts, i) for alt in refine(wc, sym, facts, fs0)]:
+              not_cancelled = option_fact(fs, lambda e: _is_f(e, "cancelled"), "None")
+              R.check(not_cancelled, "cancel-sticky", wc.path, "Ok-after-cancel-test",
+                      "%s can grant credit without testing `cancelled` first; guards: %s" % (wc.path.rsplit("::", 1)[-1], texts(fs)), s.get("span"),
+                      "credit granted only with cancelled == None")
 
-            def is_inflight(e):
-                return is_call(e, "saturating_sub") and _is_f(e[2][0], "sent_offset") and _is_f(e[2][1], "acked_offset")
+              def is_inflight(e):
+                  return is_call(e, "saturating_sub") and _is_f(e[2][0], "sent_offset") and _is_f(e[2][1], "acked_offset")
 
-            idle = has_cmp(fs, "Eq", is_inflight, lambda x: const_val(x) == 0)
+              idle = has_cmp(fs, "Eq", is_inflight, lambda x: const_val(x) == 0)
 
-            def is_sum(e):
-                if e[0] == "bin" and e[1] in ("Add", "AddWithOverflow"):
-                    a, b2 = e[2], e[3]
-                elif e[0] == "field" and e[2] == "0" and e[1][0] == "bin" and e[1][1] == "AddWithOverflow":
-                    a, b2 = e[1][2], e[1][3]
-                elif is_call(e, "saturating_add", "checked_add") and len(e[2]) == 2:
-                    a, b2 = e[2]
-                else:
-                    return False
-                return (is_inflight(a) and b2[0] == "arg") or (is_inflight(b2) and a[0] == "arg")
+              def is_sum(e):
+                  if e[0] == "bin" and e[1] in ("Add", "AddWithOverflow"):
+                      a, b2 = e[2], e[3]
+                  elif e[0] == "field" and e[2] == "0" and e[1][0] == "bin" and e[1][1] == "AddWithOverflow":
+                      a, b2 = e[1][2], e[1][3]
+                  elif is_call(e, "saturating_add", "checked_add") and len(e[2]) == 2:
+                      a, b2 = e[2]
+                  else:
+                      return False
+                  return (is_inflight(a) and b2[0] == "arg") or (is_inflight(b2) and a[0] == "arg")
 
-            fits = has_cmp(fs, "Le", is_sum, lambda x: _is_f(x, "window_bytes"))
-            R.check(idle or fits, "credit-predicate", wc.path, "Ok-guard",
-                    "wait_for_credit returns Ok on a path guarded by neither `in_flight == 0` nor "
-                    "`in_flight + chunk_len <= window_bytes`; guards: %s" % texts(fs), s.get("span"),
-                    "in_flight==0" if idle else "in_flight+chunk_len<=window_bytes")
+              fits = has_cmp(fs, "Le", is_sum, lambda x: _is_f(x, "window_bytes"))
+              R.check(idle or fits, "credit-predicate", wc.path, "Ok-guard",
+                      "%s returns Ok on a path guarded by neither `in_flight == 0` nor "
+                      "`in_flight + chunk_len <= window_bytes`; guards: %s" % (wc.path.rsplit("::", 1)[-1], texts(fs)), s.get("span"),
+                      "in_flight==0" if idle else "in_flight+chunk_len<=window_bytes")
 
     # ... against *the configured* window: `window_bytes` is set when the control is built and nothing changes it afterwards.
     # A store into an existing control (field store, or a whole-state overwrite such as `*guard = Inner { ..fresh }`) must put
